@@ -1046,7 +1046,8 @@ def gen_ManagerFacts():
     if "shard_collections: vec![KeyedShardCollection::new(HMACKey::default())], collection_by_key: HashMap::from([(HMACKey::default(), 0)])," not in nb:
         raise TranslateError("ShardBookkeeper::new: the unkeyed collection is no longer created first")
     rg = fm.fn_body("register_shards")
-    seq = ["if sbkp_lg.shard_lookup_by_shard_hash.contains_key(&s.shard_hash) { continue; }",
+    seq = ["let mut new_shards = Vec::from(new_shards);", "new_shards.sort_by(|s1, s2| s2.last_modified_time.cmp(&s1.last_modified_time));", "for s in new_shards {",
+           "if sbkp_lg.shard_lookup_by_shard_hash.contains_key(&s.shard_hash) { continue; }",
            "let shard_hmac_key = s.shard.metadata.chunk_hash_hmac_key;",
            "let n_current_collections = sbkp_lg.shard_collections.len();",
            "let shard_col_index: usize = *sbkp_lg.collection_by_key.entry(shard_hmac_key).or_insert(n_current_collections);",
